@@ -349,7 +349,16 @@ pub fn tags(s: &S, out: &mut Vec<String>) {
             if matches!(**a, S::Sub(_)) {
                 add("subshell-in-subshell".into());
             }
-            if matches!(**a, S::Case(_) | S::CaseFall(..) | S::CaseCont(..)) {
+            // the subshell's text ends in `esac )`
+            fn ends_in_case(s: &S) -> bool {
+                match s {
+                    S::Case(_) | S::CaseFall(..) | S::CaseCont(..) => true,
+                    S::Not(x) => ends_in_case(x),
+                    S::Seq(_, b) | S::And(_, b) | S::Or(_, b) => ends_in_case(b),
+                    _ => false,
+                }
+            }
+            if ends_in_case(a) {
                 add("case-in-subshell".into());
             }
             tags(a, out)
